@@ -60,16 +60,17 @@ theorem one_tree_per_file (fs : FS) (n m : Nat) (cwd : Comps) (ps : List P)
 /-! ## counting -/
 
 /-- in `get_setmap` every counted path is the physical path of a member (never a link), every physical
-member is counted, and — when no code-base directory lies inside another — exactly once
-(hypothesis `hnf` ADDED for the second and third part, as in `C09.iter_complete`, see `C09.file_root_witness`) -/
+member is counted, and exactly once — for ANY list of code-base directories: a directory listed twice (under
+its own name and through a symbolic link: the directories are resolved) or together with one of its parents
+is walked once (repair of F-C15-ROOTS = F-C09-NEST; before it the third part needed "no directory lies inside
+another") (hypothesis `hnf` ADDED for the second and third part, as in `C09.iter_complete`, see `C09.file_root_witness`) -/
 theorem counted_once (cfg : Cfg) (fs : FS) (n : Nat) (roots l : List Comps)
     (hwf : wf fs = true) (hfuel : bigFuel fs n)
     (hnf : ∀ r ∈ roots, lstat fs r ≠ some .file)
     (h : counted cfg fs n roots = .ok l) :
     (∀ x ∈ l, lstat fs x = some .file ∧ memberSpec cfg fs roots x) ∧
     (∀ c, memberSpec cfg fs roots c → c ∈ l) ∧
-    (roots.Pairwise (fun a b => ¬ a <+: b ∧ ¬ b <+: a) →
-        l.Nodup ∧ ∀ c, memberSpec cfg fs roots c → (l.filter fun x => decide (namei fs n [] x = .ok c)).length = 1) := by
+    l.Nodup ∧ ∀ c, memberSpec cfg fs roots c → (l.filter fun x => decide (namei fs n [] x = .ok c)).length = 1 := by
   unfold counted at h
   cases hi : iter cfg fs n roots with
   | error e => simp [hi] at h
@@ -93,11 +94,9 @@ theorem counted_once (cfg : Cfg) (fs : FS) (n : Nat) (roots l : List Comps)
       refine List.mem_filter.mpr ⟨hc0, ?_⟩
       rw [skipped_eq_isSymlink cfg fs n roots l₀ c hfuel hi hc0]
       simp [isSymlink, hc.1, isLinkE]
-    refine ⟨hfiles, hmem, ?_⟩
-    intro hroots
     have hnd : (l₀.filter (fun x => !skipped cfg fs n roots x)).Nodup :=
-      List.Nodup.filter _ (iter_nodup cfg fs n roots l₀ hwf hroots hi)
-    refine ⟨hnd, ?_⟩
+      List.Nodup.filter _ (iter_nodup cfg fs n roots l₀ hwf hi)
+    refine ⟨hfiles, hmem, hnd, ?_⟩
     intro c hc
     have hcongr : (l₀.filter (fun x => !skipped cfg fs n roots x)).filter (fun x => decide (namei fs n [] x = .ok c))
         = (l₀.filter (fun x => !skipped cfg fs n roots x)).filter (fun x => x == c) := by
@@ -116,6 +115,18 @@ theorem counted_once (cfg : Cfg) (fs : FS) (n : Nat) (roots l : List Comps)
         simp [this, hxc]
     rw [hcongr, ← List.count_eq_length_filter]
     exact List.count_eq_one_of_mem hnd (hmem c hc)
+
+/-- the former statement of `counted_once` (exactly once only when no code-base directory lies inside another), now a special case -/
+theorem counted_once_disjoint (cfg : Cfg) (fs : FS) (n : Nat) (roots l : List Comps)
+    (hwf : wf fs = true) (hfuel : bigFuel fs n)
+    (hnf : ∀ r ∈ roots, lstat fs r ≠ some .file)
+    (h : counted cfg fs n roots = .ok l) :
+    (∀ x ∈ l, lstat fs x = some .file ∧ memberSpec cfg fs roots x) ∧
+    (∀ c, memberSpec cfg fs roots c → c ∈ l) ∧
+    (roots.Pairwise (fun a b => ¬ a <+: b ∧ ¬ b <+: a) →
+        l.Nodup ∧ ∀ c, memberSpec cfg fs roots c → (l.filter fun x => decide (namei fs n [] x = .ok c)).length = 1) := by
+  obtain ⟨h1, h2, h3, h4⟩ := counted_once cfg fs n roots l hwf hfuel hnf h
+  exact ⟨h1, h2, fun _ => ⟨h3, h4⟩⟩
 
 /-- `find_duplicates` and the propagation in `FileTree.insert` (skip every symlink) visit exactly the files
 `get_setmap` counts (skip the symlinks whose target is a member): an enumerated link always has a member target -/
@@ -153,6 +164,13 @@ example : insertFiles exFS 20 ["t", "sub"] []
     = [["t", "a.c"], ["t", "sub", "b.h"]] := by decide
 
 example : counted exCfg exFS 20 [["t"]] = .ok [["t", "a.c"], ["t", "sub", "b.h"]] := by rfl
+
+/-- `counted_once` on overlapping directories (`C09.exFS`: `/t/dl -> sub`, so `CodeBase("t", "t/dl", "t/sub", "t")` resolves to
+`/t`, `/t/sub`, `/t/sub`, `/t`): every physical member counted once; before the repair `b.h` was counted three times -/
+example : mkRoots exFS 20 [] [⟨true, ["t"]⟩, ⟨true, ["t", "dl"]⟩, ⟨true, ["t", "sub"]⟩, ⟨true, ["t"]⟩]
+    = .ok [["t"], ["t", "sub"], ["t", "sub"], ["t"]] := by decide
+example : counted exCfg exFS 20 [["t"], ["t", "sub"], ["t", "sub"], ["t"]] = .ok [["t", "a.c"], ["t", "sub", "b.h"]] := by rfl
+example : ∀ r ∈ ([["t"], ["t", "sub"], ["t", "sub"], ["t"]] : List Comps), lstat exFS r ≠ some .file := by decide
 
 /-- why `counted_once` assumes `hnf`: a regular file listed as a code-base "directory" is a member
 (`C09.file_root_witness`) that is never counted -/
